@@ -616,6 +616,13 @@ TRIATOMICS = (
 )
 
 
+# systems with a pair beyond the package's overlap cut-off (40 bohr = 21.17 A) next to bonded heteronuclear pairs: the slow path of hcore()
+FAR_SYSTEMS = (
+    ([8, 1, 1, 1, 1], [[0.0, 0.0, 0.0], [0.9584, 0.02, 0.01], [-0.24, 0.927, -0.03], [14.0, 17.0, 9.0], [14.5, 17.4, 9.3]]),
+    ([17, 9, 1, 1], [[0.0, 0.0, 0.0], [18.0, 20.0, 12.0], [1.27, 0.03, 0.02], [18.6, 20.5, 12.5]]),
+)
+
+
 def _directions(ndir: int, rng: np.random.Generator) -> List[np.ndarray]:
     dirs = []
     for _ in range(ndir):
@@ -644,6 +651,10 @@ def sweep(methods=("MNDO", "AM1", "PM3"), elements=ELEMENTS, distances=(0.6, 1.1
             for (zs, xs) in TRIATOMICS:
                 if all(z in elements for z in zs):
                     results.append(compare_hcore_molecule(method, zs, xs, deprecated=deprecated))
+            for (zs, xs) in FAR_SYSTEMS:
+                r = compare_hcore_molecule(method, zs, xs, deprecated=deprecated)
+                r["cls"] = "far-pair"
+                results.append(r)
     return results
 
 
